@@ -737,7 +737,10 @@ func (r *Run) Finish() {
 		}
 		// determinism: the failing case must fail again when its group is re-run, twice.
 		// (re-executions stop after 5 minutes in total: later observations are then reported as they were seen)
-		if f, ok := r.groups[v.Group]; ok && r.replayGroup == "" && time.Since(r.start).Seconds()-wall < 300 {
+		// (observations of the free-running -race pass are exempt: a data-race report names two unordered accesses and is
+		// sound on its own, and a wrong result seen under real concurrency cannot be forced to happen again)
+		raceObs := strings.HasPrefix(key, "race/") || strings.HasPrefix(key, "race-pass/")
+		if f, ok := r.groups[v.Group]; ok && !raceObs && r.replayGroup == "" && time.Since(r.start).Seconds()-wall < 300 {
 			for k := 0; k < 2; k++ {
 				r.mu.Lock()
 				r.recheck, r.reFound, r.replayKey, r.replayCase = true, false, v.Key, v.CaseID
